@@ -349,10 +349,10 @@ func runCheck(root string, args []string) int {
 	// thorough tier: bounded validation of the trusted reward-arithmetic contracts on the real code (C12, C13)
 	if rwFacts := map[string][]string{
 		"C12": {"indices_only_grow", "claims_never_exceed_the_deposit", "claims_covered_up_to_index_rounding", "second_claim_pays_nothing", "position_settled_after_claim", "claims_across_a_weight_change_pay_each_deposit_once"},
-		"C13": {"claims_never_exceed_the_deposit", "claims_covered_up_to_index_rounding", "second_claim_pays_nothing", "position_settled_after_claim", "payouts_pro_rata_within_an_asset", "rewards_split_between_assets_by_weight", "claims_across_a_weight_change_pay_each_deposit_once", "large_total_asset_is_not_starved"},
+		"C13": {"claims_never_exceed_the_deposit", "claims_covered_up_to_index_rounding", "second_claim_pays_nothing", "position_settled_after_claim", "payouts_pro_rata_within_an_asset", "rewards_split_between_assets_by_weight", "claims_across_a_weight_change_pay_each_deposit_once", "large_total_asset_is_not_starved", "zero_weight_alliance_does_not_starve_the_others"},
 	}[prop]; rwFacts != nil && tier == "thorough" {
 		runBoundedSuite(root, vd, prop, seed, "reward-arithmetic", "bounded/zz_bounded_rewards_test.go", "TestBoundedRewardArithmetic", rwFacts,
-			"55 scenarios: 3 with an 18-decimals asset staked next to a 6-decimals asset of equal weight; 4 claims stepping through a reward-weight change (earlier claim, accrual, weight change, accrual, claim); 1,2,3,5 delegators x 3 reward weights x 4 reward amounts (1 .. 1e12), stakes 1 .. 1e24 base units, two assets, two reward denoms, seeded claim order",
+			"57 scenarios: 2 with a zero-weight alliance next to a positive-weight one; 3 with an 18-decimals asset staked next to a 6-decimals asset of equal weight; 4 claims stepping through a reward-weight change (earlier claim, accrual, weight change, accrual, claim); 1,2,3,5 delegators x 3 reward weights x 4 reward amounts (1 .. 1e12), stakes 1 .. 1e24 base units, two assets, two reward denoms, seeded claim order",
 			isKnown, &knownHit, &bounded, &violations, &vioLines)
 	}
 	// thorough tier: every defect that was repaired stays repaired - the replay test of each `fixed:` entry of this property is run against the
